@@ -584,6 +584,10 @@ func Tree(t *rapid.T, o TreeOpts, depth int, label string) *model.Node {
 		return model.Ref(rapid.SampledFrom(o.RefTypes).Draw(t, label+"ref"))
 	case c == 3 && len(o.RefTypes) > 1:
 		nms := rapid.SliceOfNDistinct(rapid.SampledFrom(o.RefTypes), 2, 3, func(s string) string { return s }).Draw(t, label+"refs")
+		if rapid.IntRange(0, 5).Draw(t, label+"again") == 0 {
+			// a name written a second time (legal; what is written is what is reported)
+			nms = append(nms, nms[rapid.IntRange(0, len(nms)-1).Draw(t, label+"againidx")])
+		}
 		n := model.Choice(nms...)
 		if rapid.IntRange(0, 4).Draw(t, label+"mixed") == 0 {
 			n.Rules = append(n.Rules, model.R("type", model.Str("mixed"))) // what a choice is anyway, written out
